@@ -72,7 +72,7 @@ def unescape_tla(s):
     return ''.join(out)
 
 
-def run_tlc(module, cfg, name, constants=None, workers=8, timeout=1500, env_extra=None, xss='512m', heap=None):
+def run_tlc(module, cfg, name, constants=None, workers=8, timeout=1500, env_extra=None, xss='1g', heap=None):
     """Run TLC on spec/<module>.tla with spec/<cfg> (a cfg file name or cfg text).
     Returns dict(out, states, distinct, vecs, ok, violation)."""
     meta = os.path.join(WORK, 'tlc-' + name)
@@ -84,16 +84,17 @@ def run_tlc(module, cfg, name, constants=None, workers=8, timeout=1500, env_extr
     else:
         cfgpath = os.path.join(SPEC, cfg)
     env = dict(os.environ)
-    jopts = f'-Xss{xss}'
-    if heap:
-        jopts += f' -Xmx{heap}'
-    env['JAVA_TOOL_OPTIONS'] = jopts
+    env.pop('JAVA_TOOL_OPTIONS', None)
+    # same command line as the `tlc` wrapper, plus -Xss on the launcher's command line: JAVA_TOOL_OPTIONS would not
+    # reach the main thread, which evaluates initial states and their invariants
+    java = ['java', f'-Xss{xss}', '-XX:+UseParallelGC'] + ([f'-Xmx{heap}'] if heap else []) + \
+           ['-cp', '/opt/veriftools/tla/tla2tools.jar:/opt/veriftools/tla/CommunityModules-deps.jar', 'tlc2.TLC']
     if env_extra:
         env.update(env_extra)
     outpath = os.path.join(meta, 'tlc.out')
     t0 = time.time()
     with open(outpath, 'w') as f:
-        r = sh(['timeout', str(timeout), 'tlc', '-workers', str(workers), '-metadir', os.path.join(meta, 'states'),
+        r = sh(['timeout', str(timeout)] + java + ['-workers', str(workers), '-metadir', os.path.join(meta, 'states'),
                 '-cleanup', '-noGenerateSpecTE', '-config', cfgpath, os.path.join(SPEC, module + '.tla')],
                cwd=SPEC, env=env, stdout=f, stderr=subprocess.STDOUT)
     wall = time.time() - t0
